@@ -63,6 +63,11 @@ func c17Configs(thorough bool) (cfgs []poolCfg, bounds []int) {
 		add(poolCfg{Min: 1, Max: 2, EM: engine.SortModel, Method: meth, StopOnErr: true, NM: [2]int{2, 1}, Clients: [][]reqSpec{{pn}, {ok}}}, 1)
 		add(poolCfg{Min: 1, Max: 2, EM: engine.SortModel, Method: meth, StopOnErr: true, NM: [2]int{2, 1}, Clients: [][]reqSpec{{er, ok}}}, 1)
 	}
+	// the rules are cleared (and installed again) while every instance is inside a rule and further
+	// requests wait: whatever those requests return, no instance may be lost
+	gt := reqSpec{Mode: modeGate, Other: true}
+	add(poolCfg{Min: 1, Max: 2, EM: engine.SortModel, Method: "Execute", Clear: true, Clients: [][]reqSpec{{gt}, {gt}, {ok}}}, 2)
+	add(poolCfg{Min: 1, Max: 2, EM: engine.SortModel, Method: "ExecuteRulesWithSpecifiedEM", Clear: true, Clients: [][]reqSpec{{gt}, {gt}, {ok}, {ok}}}, 2)
 	// every execute method: a client issuing ok / panicking / failing requests, then the conservation phase
 	for _, m := range gx.PoolMethods {
 		ems := []int{engine.SortModel}
@@ -106,7 +111,7 @@ func init() {
 		BudgetThor:  30 * time.Minute,
 		Kind:        "schedules",
 		Rule: "pools (1,2), (2,3), (1,3) [thorough also (2,4),(3,4)]: M+1 (and M+2) clients x 1 request and M clients x 2 requests through Execute / ExecuteRulesWithSpecifiedEM with every fault subset of size <=1 (2) (injected panic, rule error, a store that panics inside reflect), every schedule with <=2 deviations from the default scheduler (delay bounding; thorough: 3 for Execute on pool (1,2), more fault pairs and pools) incl. the busy-wait loop (fair yield) and the asynchronous put goroutines; " +
-			"plus every one of the 24 execute methods x applicable execution models with ok/panicking/failing requests, and the stop-on-error paths of the five staged methods; after quiescence a conservation phase holds max requests inside a rule simultaneously (a lost instance = hang verdict). Oracle: in-flight rule bodies <= max, every request returns, errors only for a request's own faults, every rule body runs once, no rule of a request is still running after the request's pool call has returned",
+			"plus every one of the 24 execute methods x applicable execution models with ok/panicking/failing requests, the stop-on-error paths of the five staged methods, and ClearPoolRules + re-installation landing while all instances are busy and requests wait; after quiescence a conservation phase holds max requests inside a rule simultaneously (a lost instance = hang verdict). Oracle: in-flight rule bodies <= max, every request returns, errors only for a request's own faults, every rule body runs once, no rule of a request is still running after the request's pool call has returned",
 		Assume:  []string{"injected functions terminate", "sequentially consistent memory (races are C19's subject)", "a fresh pool is constructed per execution"},
 		Run:     func(c *hx.Ctx) { cfgs, b := c17Configs(c.Thorough()); runPoolConfigs(c, "C17", cfgs, b) },
 		Rebuild: rebuildPool,
